@@ -267,6 +267,28 @@ def check(cfg, ops, seed, counters):
             if sorted(got) != sorted(exp_ranges):
                 vio.append({'key': 'gpt:part:images', 'detail': 'GPT partitions cover LBAs %s, the El Torito EFI images occupy %s' % (got, exp_ranges)})
             counters['gpt_checked'] = counters.get('gpt_checked', 0) + 1
+    if hy.present and seed % 3 == 0:
+        # the hybrid image opened by a fresh object and mastered again carries the same structures
+        # (what open() reconstructs of MBR, both GPT copies and the APM is what was there)
+        s3 = driver.Session(cfg, seed)
+        try:
+            s3.open_bytes(data)
+            img3, oc3 = s3.write()
+            counters['hybrid_remastered'] = counters.get('hybrid_remastered', 0) + 1
+            if not oc3.ok:
+                vio.append({'key': 'remaster:write-raises:%s@%s' % (oc3.exc_class, oc3.exc_where), 'detail': oc3.exc_msg})
+            else:
+                hy3 = ihy.decode(img3.getvalue())
+                known_ = {k for k, _d in hy.problems}
+                for k, d in hy3.problems:
+                    if k not in known_:
+                        vio.append({'key': 'remaster:%s' % k, 'detail': d})
+                for part in ('mbr', 'gpt_primary', 'gpt_backup'):
+                    if getattr(hy, part, None) != getattr(hy3, part, None):
+                        vio.append({'key': 'remaster:%s:differs' % part, 'detail': 'decoded %s of the image mastered again differs from the original' % part})
+        except Exception as e:
+            vio.append({'key': 'remaster:open-raises:%s@%s' % (type(e).__name__, driver.innermost_pycdlib_frame(e)), 'detail': str(e)})
+        s3.close()
     # twin without add_isohybrid: ISO part unchanged
     twin_ops = [o for o in ops if o['op'] != 'add_isohybrid']
     tw = driver.replay(cfg, twin_ops, seed, always_consistent=ac)
